@@ -30,11 +30,23 @@ def canon_request(entry):
 
 def build_site(case):
     rng = random.Random(case['site_seed'])
-    return sitegen.generate(rng, n_pages=case['n_pages'], redirects=case.get('redirects', True))
+    site = sitegen.generate(rng, n_pages=case['n_pages'], redirects=case.get('redirects', True))
+    site.inputs = []
+    for k in range(case.get('many_inputs', 0)):
+        # further start URLs (given in an input file): leaves that nothing links to
+        leaf = site.add(sitegen.Page('http://%s/in/leaf%d.html' % (site.host, k), 'leaf'))
+        site.inputs.append(leaf.url)
+    return site
 
 
 def argv_for(site, tmp, concurrent):
-    return [site.start, '-r', '--level', 'inf', '--no-robots', '--database', os.path.join(tmp, 'crawl.db'),
+    extra = []
+    if site.inputs:
+        path = os.path.join(tmp, 'inputs.txt')
+        with open(path, 'w') as f:
+            f.write(''.join(u + '\n' for u in site.inputs))
+        extra = ['--input-file', path]
+    return extra + [site.start, '-r', '--level', 'inf', '--no-robots', '--database', os.path.join(tmp, 'crawl.db'),
             '-P', tmp, '--concurrent', str(concurrent), '--delete-after', '--page-requisites', '--quiet',
             '--waitretry', '0', '--tries', '3']
 
@@ -104,7 +116,8 @@ def run_case(case, part):
                         pass
                     time.sleep(0.05)
             srv.on_request = on_request
-        rc1, out1 = wait(proc)
+        big = 600 if case.get('many_inputs') else 120
+        rc1, out1 = wait(proc, timeout=big)
         if kill and kill['kind'] == 'fi_write' and rc1 == 137:
             rc1 = -9        # fi.so terminates with _exit(137)
         srv.on_request = None
@@ -168,7 +181,7 @@ def run_case(case, part):
         # ---- resume
         res2_path = os.path.join(tmp, 'res2.json')
         proc2 = spawn({'argv': argv, 'table': table, 'kill': None, 'result_file': res2_path}, tmp, 'run2')
-        rc2, out2 = wait(proc2)
+        rc2, out2 = wait(proc2, timeout=big)
         log_all = srv.log.snapshot()
         log2 = log_all[n1:]
         req1 = [canon_request(e) for e in log1]
@@ -258,8 +271,13 @@ def main():
             for conc in ((1, 3) if check.thorough else (2,)):
                 workloads.append({'site_seed': site_seed, 'n_pages': rng.choice([8, 12, 20]) if check.thorough else 7,
                                   'concurrent': conc, 'delay_seed': rng.randrange(1 << 30)})
+        # a crawl with more start URLs than fit in one batch of the input task (1000): kills while the start URLs are
+        # being stored
+        for n_in in ((1001, 2500) if check.thorough else (1001,)):
+            workloads.append({'site_seed': rng.randrange(1 << 30), 'n_pages': 3, 'concurrent': 4, 'many_inputs': n_in,
+                              'delay_seed': rng.randrange(1 << 30)})
         counts = par.run_jobs(target, [{'count': True, 'case': dict(w, kill=None, count_fi=True)} for w in workloads],
-                              check.jobs, timeout=300)
+                              check.jobs, timeout=900)
         cases = []
         for w, c in zip(workloads, counts):
             if not c or '_error' in c or c.get('exit') != 0:
@@ -272,6 +290,16 @@ def main():
             check.count('requests_enumerated', R)
             check.sample({'workload': w, 'statements': S, 'commits': C, 'requests': R, 'reference_requests': ref[:6]})
             points = []
+            if w.get('many_inputs'):
+                # only the phase in which the start URLs are stored: the statements and commits right after the schema
+                ddl = c['counts'].get('ddl', 0)
+                span = 40 if check.thorough else 5
+                points = [{'kind': 'before_stmt', 'at': k} for k in range(ddl + 1, ddl + 1 + span)]
+                points += [{'kind': 'after_commit', 'at': k} for k in range(1, (12 if check.thorough else 3))]
+                check.count('kill_points_while_storing_start_urls', len(points))
+                for p in points:
+                    cases.append(dict(w, kill=p, reference_requests=ref))
+                continue
             for k in range(1, C + 1):
                 points.append({'kind': 'before_commit', 'at': k})
                 points.append({'kind': 'after_commit', 'at': k})
